@@ -767,9 +767,23 @@ func c14r14(c *Ctx) {
 			// loop: j from 0 while j < l-1 ; the only guard inside is needDump
 			if loop != nil {
 				if be, ok := prog.Unparen(loop.Cond).(*ast.BinaryExpr); ok && be.Op == token.LSS {
-					if sub, ok := prog.Unparen(be.Y).(*ast.BinaryExpr); ok && sub.Op == token.SUB {
-						if k, isC := prog.ConstInt(info, sub.Y); isC && k == 1 {
-							okOld = true
+					minus1 := func(e ast.Expr) bool {
+						if sub, ok := prog.Unparen(e).(*ast.BinaryExpr); ok && sub.Op == token.SUB {
+							if k, isC := prog.ConstInt(info, sub.Y); isC && k == 1 {
+								return true
+							}
+						}
+						return false
+					}
+					if minus1(be.Y) {
+						okOld = true
+					} else if id, isI := prog.Unparen(be.Y).(*ast.Ident); isI {
+						defs := f.DefsOfPath(id)
+						okOld = len(defs) > 0
+						for _, d := range defs {
+							if d.Rhs == nil || !minus1(d.Rhs) {
+								okOld = false
+							}
 						}
 					}
 				}
@@ -926,14 +940,16 @@ func c02r8(c *Ctx) {
 				k, _ := prog.FieldOf(info, prog.Unparen(as.Lhs[0]))
 				if w, has := want[k]; has && prog.RootObj(info, as.Rhs[0]) == item {
 					rk, _ := prog.FieldOf(info, prog.Unparen(as.Rhs[0]))
-					if rk == w && prog.RootObj(info, as.Lhs[0]) != item {
+					_, inBlock := f.Parent(as).(*ast.BlockStmt)
+					_, inLoop := f.Parent(f.Parent(as)).(*ast.ForStmt)
+					if rk == w && prog.RootObj(info, as.Lhs[0]) != item && inBlock && inLoop {
 						got[k] = true
 					}
 				}
 			}
 			return true
 		})
-		c.check(len(got) == 3, R, f.Key+": meta.ValueHash, meta.Ver, pos.Offset from the item", f.Pos(), "three fields copied", "the replayed tree entry does not carry the item's value hash, version and offset")
+		c.check(len(got) == 3, R, f.Key+": meta.ValueHash, meta.Ver, pos.Offset from the item", f.Pos(), "three fields copied for every item", "the replayed tree entry does not (always) carry the item's value hash, version and offset")
 		okChunk := false
 		ast.Inspect(f.Decl.Body, func(x ast.Node) bool {
 			if as, ok := x.(*ast.AssignStmt); ok && len(as.Lhs) == 1 && prog.IsField(info, "store.Position.ChunkID")(prog.Unparen(as.Lhs[0])) && prog.ObjOf(info, as.Rhs[0]) == f.Param(0) {
